@@ -275,6 +275,11 @@ def analyse_loop(chk, prog, cfg, b, facts):
         ok = all(not any(p_ in b.reachable([ft]) for p_ in P) for ft in false_targets)
         fact("R6.keep_alive", "!keep_alive leaves the loop", ok, "the loop continues although keep_alive is false")
         defs = [d for d in b.defs().get(fl, []) if not (d[2] == "assign" and d[3]["pl"]["p"])]
+        tests = sorted(set(s_ for s_, _ in true_edges))
+        wfresh = core.must_pass(b, P, tests, through_nodes=[d[0] for d in defs])
+        fact("R6.flag_fresh", "keep_alive is recomputed for every request (each path parse -> test assigns it)", wfresh is None and bool(defs),
+             "a request can reach the keep-alive test without the flag having been assigned for it: the disposition of an earlier request on the connection is inherited",
+             path=wfresh)
         for d in defs:
             if d[2] == "assign" and d[3]["rv"]["k"] == "use" and d[3]["rv"]["o"].get("k") == "const":
                 fact("R6.flag_def", "keep_alive = false", d[3]["rv"]["o"].get("v") is False, "keep_alive is set to a constant true")
@@ -353,20 +358,41 @@ def _infer_flag(prog, b, W, P):
     return cands
 
 
+def _one_byte(prog, b, blk):
+    """Is the buffer of the read_exact at blk a [u8; 1] local?"""
+    a = b.term(blk)["args"][1]
+    l = core.op_local(a)
+    seen = set()
+    while l is not None and l not in seen:
+        seen.add(l)
+        if "[u8; 1]" in (b.local_ty(l) or ""):
+            return True
+        ds = b.defs().get(l, [])
+        if len(ds) != 1 or ds[0][2] != "assign":
+            return False
+        rv = ds[0][3]["rv"]
+        if rv["k"] in ("ref", "rawptr"):
+            l = rv["pl"]["l"]
+        elif rv["k"] in ("use", "cast"):
+            l = core.op_local(rv["o"])
+        else:
+            return False
+    return False
+
+
 def timeout_table(chk, prog):
     fn = "humphrey::http::request::Request::from_stream_with_timeout"
     ms = [m for m in tables.fn_tables(prog, fn) if "ErrorKind" in m.get("scrut_ty", "")]
     chk.floor("ErrorKind table in from_stream_with_timeout", len(ms), 1)
-    if not ms:
-        return
-    mp, rest, dup = tables.simple_map(ms[0], key_kinds=("path",))
-    got = {tables.variant_name(k): (tables.variant_name(v[1]) if v[0] == "path" else None) for k, v in mp.items()}
-    for k in ("TimedOut", "WouldBlock"):
-        chk.ob("R2.timeout_kinds", fn, f"ErrorKind::{k} -> RequestError::Timeout", got.get(k) == "Timeout",
-               f"ErrorKind::{k} is mapped to {got.get(k)}: an idle connection would be treated as a disconnect (no 408)", cfg="A")
-    other = [v for keys, g, v, line in rest if keys == [("rest",)]]
-    chk.ob("R2.timeout_kinds", fn, "other kinds -> Disconnected", bool(other) and other[0][0] == "path" and other[0][1].endswith("Disconnected"),
-           f"other error kinds map to {other}", cfg="A")
+    if ms:
+        mp, rest, dup = tables.simple_map(ms[0], key_kinds=("path",))
+        got = {tables.variant_name(k): (tables.variant_name(v[1]) if v[0] == "path" else None) for k, v in mp.items()}
+        for k in ("TimedOut", "WouldBlock"):
+            chk.ob("R2.timeout_kinds", fn, f"ErrorKind::{k} -> RequestError::Timeout", got.get(k) == "Timeout",
+                   f"ErrorKind::{k} is mapped to {got.get(k)}: an idle connection would be treated as a disconnect (no 408)", cfg="A")
+        other = [v for keys, g, v, line in rest if keys == [("rest",)]]
+        chk.ob("R2.timeout_kinds", fn, "other kinds -> Disconnected", bool(other) and other[0][0] == "path" and other[0][1].endswith("Disconnected"),
+               f"other error kinds map to {other}", cfg="A")
     # the timeout is installed before the first read and cleared afterwards
     b = prog.bodies[fn]
     sets = [(blk, describe(prog, b, t["args"][1])) for blk, t in b.calls_to(r"Stream::set_timeout$")]
@@ -375,6 +401,24 @@ def timeout_table(chk, prog):
     armed = [blk for blk, d in sets if d[0] == "variant" and d[2] == "Some"]
     ok = bool(armed) and all(core.must_pass(b, [0], [r], through_nodes=armed, after_from=False) is None for r in reads)
     chk.ob("R2.timeout_armed", fn, "set_timeout(Some(timeout)) precedes the first read", ok, "the wait for a request is not bounded by the timeout", cfg="A")
+    # ... and covers only the wait for the first byte: everything that reads the rest of the request runs after set_timeout(None)
+    cleared = [blk for blk, d in sets if d[0] == "variant" and d[2] == "None"]
+    rest_reads = [blk for blk, t in b.calls_to(r"Request::from_stream(_inner)?$")]
+    chk.floor("readers of the rest of the request in from_stream_with_timeout", len(rest_reads), 1)
+    for r in rest_reads:
+        w = core.must_pass(b, armed, [r], through_nodes=cleared)
+        chk.ob("R2.timeout_first_byte_only", fn, f"set_timeout(None) precedes {b.term(r)['callee'].split('::')[-1]} (the timeout bounds the idle wait, not the request's own segments)",
+               w is None and bool(cleared),
+               "the rest of the request is read with the idle timeout still armed: a request delivered in slow segments is cut off and answered as malformed / dropped",
+               where=b.where(r), path=w, cfg="A")
+    n_other = [blk for blk, t in b.calls() if core.call_matches(t, r"Read::read(_exact|_to_end|_to_string)?$|BufRead::read_(line|until)$") and blk not in reads]
+    chk.ob("R2.timeout_first_byte_only", fn, "the only direct read under the timeout is the single first-byte read_exact", len(reads) == 1 and not n_other,
+           f"{len(reads)} read_exact + {len(n_other)} other direct reads", cfg="A")
+    for r in reads:
+        d = describe(prog, b, b.term(r)["args"][1])
+        ty = " ".join(b.term(r).get("arg_tys", []))
+        chk.ob("R2.timeout_first_byte_only", fn, "the read under the timeout is one byte wide", "[u8; 1]" in ty or "[u8; 1]" in str(d) or _one_byte(prog, b, r),
+               f"buffer {ty}", where=b.where(r), cfg="A")
 
 
 def run(chk):
